@@ -88,7 +88,7 @@ def coq_files():
     for lf in sorted(glob.glob(os.path.join(COQ, "project.d", "*.list"))):
         for l in open(lf):
             l = l.strip()
-            if l.endswith(".v") and l not in out:
+            if l.endswith(".v") and l not in out and os.path.exists(os.path.join(COQ, l)):
                 out.append(l)
     return out
 
@@ -135,6 +135,37 @@ def coq_build(jobs=16, timeout=3000):
                 return False, out
         rc, out = run(["make", "-f", "Makefile.coq", "-k", "-j%d" % jobs], cwd=COQ, timeout=timeout)
         return rc == 0, out
+
+
+def coq_cone_stale(pid):
+    """Files in the dependency cone of Properties/<pid>.v whose .vo is missing or older than
+    the source (so a failure elsewhere in the shared development does not count against pid)."""
+    dfile = os.path.join(COQ, ".Makefile.coq.d")
+    deps = {}
+    if os.path.exists(dfile):
+        for l in open(dfile):
+            if ":" not in l:
+                continue
+            lhs, rhs = l.split(":", 1)
+            tgt = [t for t in lhs.split() if t.endswith(".vo")]
+            if not tgt:
+                continue
+            deps[tgt[0]] = [d for d in rhs.split() if d.endswith(".vo") and not d.startswith("/")]
+    root = "Properties/%s.vo" % pid
+    seen, todo = set(), list(deps.get(root, []))
+    while todo:
+        x = todo.pop()
+        if x in seen:
+            continue
+        seen.add(x)
+        todo += deps.get(x, [])
+    stale = []
+    for vo in sorted(seen):
+        v = os.path.join(COQ, vo[:-1])
+        vop = os.path.join(COQ, vo)
+        if not os.path.exists(vop) or (os.path.exists(v) and os.path.getmtime(vop) < os.path.getmtime(v)):
+            stale.append(vo)
+    return stale
 
 
 def coq_clean():
